@@ -9,6 +9,7 @@ import Rs1090.Model.Decode.Message
 import Rs1090.Proofs.Decode.Message
 import Rs1090.Proofs.Decode.Checksum
 import Rs1090.Gen.Render
+import Rs1090.Gen.HiddenState
 namespace Rs1090.Props.C01
 open Rs1090 Rs1090.Model Rs1090.Model.Message
 
@@ -202,6 +203,34 @@ def renderAllowedCalls : List String :=
     list `render_sites_empty`: a call that list does not know (`split_at`, `repeat`, `rem_euclid`,
     `borrow_mut`, a helper of the crate that indexes …) breaks this obligation. -/
 theorem render_calls_allowed : ∀ c ∈ Gen.Render.calls, c ∈ renderAllowedCalls := by decide
+
+/-- the source files C01 is anchored in (relative to `crates/rs1090/src`): the frame decoder, the ADS-B and
+    Comm-B layers, the checksum and every register reader -/
+def decoderFiles : List String :=
+  ["decode/mod.rs", "decode/adsb.rs", "decode/commb.rs", "decode/crc.rs", "decode/bds/mod.rs",
+   "decode/bds/bds05.rs", "decode/bds/bds06.rs", "decode/bds/bds08.rs", "decode/bds/bds09.rs",
+   "decode/bds/bds10.rs", "decode/bds/bds17.rs", "decode/bds/bds18.rs", "decode/bds/bds19.rs",
+   "decode/bds/bds20.rs", "decode/bds/bds21.rs", "decode/bds/bds30.rs", "decode/bds/bds40.rs",
+   "decode/bds/bds44.rs", "decode/bds/bds45.rs", "decode/bds/bds50.rs", "decode/bds/bds60.rs",
+   "decode/bds/bds61.rs", "decode/bds/bds62.rs", "decode/bds/bds65.rs"]
+
+/-- **No hidden state besides the reviewed one** (the determinism clause, on the side of the code).  The model
+    is a function by construction, which says nothing about a memo, cache or counter in the Rust code.  The
+    translator therefore lists on every run EVERY construct through which a Rust function can carry state from
+    one call to the next without it showing in its signature — `static` items, `thread_local!`, `lazy_static!`,
+    `OnceCell`/`OnceLock`/`Lazy`, `Cell`/`RefCell`/`UnsafeCell`, `Mutex`/`RwLock`, atomics, `unsafe` — in every
+    file under `decode/` and `data/` (whole files, not only the items the models were written from), and this
+    obligation requires what it finds in the decoder's files to be exactly the one reviewed site: the
+    serialisation switch `CONFIG` (a `OnceCell` read by `Serialize for TimedMessage` only; modelled as the three
+    configurations of C07).  Code without such a construct is a function of its arguments (safe Rust has no
+    other channel besides I/O), so decoding the same bytes twice gives equal results.  A new memo breaks this
+    theorem by name; the harness oracles (double decode, history and sibling sequences, shuffled replay) then
+    look for a pair of inputs that exposes it. -/
+theorem hidden_state_reviewed :
+    Gen.HiddenState.sitesIn decoderFiles =
+      [("decode/mod.rs", "static CONFIG: OnceCell<SerializeConfig> = OnceCell::new();")] := by decide
+
+theorem hidden_state_scanned : 25 ≤ Gen.HiddenState.filesScanned := by decide
 
 /-- determinism: the MODEL is a function, which says nothing about hidden state in the Rust code; for the
     implementation this clause is checked by the harness only (every input decoded twice, and the
